@@ -1,9 +1,216 @@
-import Ivg.Model.Decoder
-import Ivg.Model.Arc
-import Ivg.Model.MdIcons
+import Ivg.Lemmas.GradQ
 import Ivg.Gen.Tie
 import Ivg.Obligations
-/-! # Property C15 — theorems (work in progress: tie obligations only so far) -/
+/-!
+# C15 — gradient paints
+
+Property text: "A gradient paint evaluated at any pixel returns a valid premultiplied colour equal to the
+piece-wise linear interpolation (in premultiplied space) of its stops at the offset obtained by mapping
+the pixel centre through the viewBox-to-gradient matrix composed with the pixel-to-viewBox map (x
+coordinate for linear, distance from the origin for radial). Offsets outside [0,1] are handled per spread
+mode: none gives transparent black, pad the end colours, repeat the fractional part, reflect a triangle
+wave of period 2; at a stop's offset the colour is that stop's colour, and before the first or after the
+last stop it is the first or last colour."
+
+Model: `Ivg/Model/Gradient.lean` (`clamp`, `Gradient.init`, `Gradient.at`; Go: `/repo/render/gradient.go`)
+and `Renderer.initGradient` (`/repo/render/render.go`).  Specification: `Ivg/Spec/Grad.lean`
+(`spreadOffset`, `sample`, `colorAt`, written from the text above, core Lean only).
+All theorems are about the model instantiated at EXACT arithmetic (`ℚ` for both float32 and float64);
+the float64 square root of the radial shape is a parameter (`[SqrtQ]`) and stays symbolic:
+`GradQ.rawOffset g x y` is `m.a·px + m.b·py + m.c` for the linear shape and
+`Wide.sqrt (gx² + gy²)` for the radial shape, with `(px, py) = (x + ½, y + ½)` the pixel centre.
+-/
 namespace Ivg.Props.C15
+open Ivg Grad Ren GradQ
+open Ivg.Spec.Grad (Spread frac tri spreadOffset Col lerp sample sampleCol colorAt increasing)
+
+variable [SqrtQ]
+
+/-! ## spread modes -/
+
+/-- Clause "offsets outside [0,1] are handled per spread mode", all at once: the model's `Clamp` equals the
+    specification's spread function for EVERY `x` and every spread code, `-1` standing for "none, outside"
+    (which `At` turns into transparent black, see `at_none_outside`). -/
+theorem clamp_spec (spread : UInt8) (x : ℚ) :
+    clamp (α := ℚ) spread x = (spreadOffset (Spread.ofCode spread) x).getD (-1) :=
+  GradQ.clamp_spec spread x
+
+/-- … inside `[0,1]` the offset is used as it is, for every spread mode. -/
+theorem clamp_inside (spread : UInt8) (x : ℚ) (h0 : 0 ≤ x) (h1 : x ≤ 1) : clamp (α := ℚ) spread x = x :=
+  GradQ.clamp_inside spread x h0 h1
+example : (0 : ℚ) ≤ 1 / 3 ∧ (1 / 3 : ℚ) ≤ 1 := by norm_num
+
+/-- "pad the end colours": below 0 ↦ 0, above 1 ↦ 1. -/
+theorem clamp_pad (x : ℚ) : clamp (α := ℚ) 1 x = if x < 0 then 0 else if x ≤ 1 then x else 1 :=
+  GradQ.clamp_pad x
+
+/-- "repeat the fractional part": outside `[0,1]`, `x ↦ x − ⌊x⌋` (also for negative `x`). -/
+theorem clamp_repeat (x : ℚ) (h : ¬ (0 ≤ x ∧ x ≤ 1)) : clamp (α := ℚ) 3 x = frac x := GradQ.clamp_repeat x h
+example : ¬ ((0 : ℚ) ≤ -5 / 4 ∧ (-5 / 4 : ℚ) ≤ 1) := by norm_num
+
+/-- "reflect a triangle wave of period 2": outside `[0,1]`, `x ↦ tri x` where `tri` is the triangle wave
+    through (0,0), (1,1), (2,0) — for every `x`, including the odd integers (where the value is 1) and
+    negative `x`. -/
+theorem clamp_reflect (x : ℚ) (h : ¬ (0 ≤ x ∧ x ≤ 1)) : clamp (α := ℚ) 2 x = tri x := GradQ.clamp_reflect x h
+/-- the triangle wave in closed form from the integer part: rising on even, falling on odd intervals -/
+theorem tri_of_floor (x : ℚ) (n : ℤ) (hn : ⌊x⌋ = n) : tri x = if n % 2 = 0 then x - n else n + 1 - x :=
+  GradQ.tri_of_floor x n hn
+-- at the odd integer 3 and at the negative odd integer −1 the reflected offset is 1, at 2 it is 0
+example : clamp (α := ℚ) 2 3 = 1 ∧ clamp (α := ℚ) 2 (-1) = 1 ∧ clamp (α := ℚ) 2 2 = 0 ∧
+    clamp (α := ℚ) 2 (-5 / 2) = 1 / 2 := by
+  refine ⟨?_, ?_, ?_, ?_⟩
+  · rw [GradQ.clamp_reflect _ (by norm_num), GradQ.tri_of_floor 3 3 (by norm_num)]; norm_num
+  · rw [GradQ.clamp_reflect _ (by norm_num), GradQ.tri_of_floor (-1) (-1) (by norm_num)]; norm_num
+  · rw [GradQ.clamp_reflect _ (by norm_num), GradQ.tri_of_floor 2 2 (by norm_num)]; norm_num
+  · rw [GradQ.clamp_reflect _ (by norm_num),
+      GradQ.tri_of_floor (-5 / 2) (-3) (by rw [Int.floor_eq_iff]; norm_num)]; norm_num
+
+/-- "none gives transparent black", step 1: for any spread code other than 1, 2, 3 `Clamp` returns `-1`
+    outside `[0,1]` … -/
+theorem clamp_none (spread : UInt8) (hs : spread ≠ 1 ∧ spread ≠ 2 ∧ spread ≠ 3) (x : ℚ)
+    (h : ¬ (0 ≤ x ∧ x ≤ 1)) : clamp (α := ℚ) spread x = -1 := GradQ.clamp_none spread hs x h
+
+/-- … step 2: and then `At` returns transparent black. -/
+theorem at_none_outside (shape spread : UInt8) (m : Aff3 ℚ) (s0 s1 : Stop ℚ) (rest : List (Stop ℚ))
+    (hs : spread ≠ 1 ∧ spread ≠ 2 ∧ spread ≠ 3) (x y : Int)
+    (hout : ¬ (0 ≤ rawOffset (Gradient.init shape spread m (s0 :: s1 :: rest)).1 x y ∧
+               rawOffset (Gradient.init shape spread m (s0 :: s1 :: rest)).1 x y ≤ 1)) :
+    (Gradient.init shape spread m (s0 :: s1 :: rest)).1.at x y = ⟨0, 0, 0, 0⟩ :=
+  GradQ.at_none_outside shape spread m s0 s1 rest hs x y hout
+
+/-! ## interpolation -/
+
+/-- Headline: for a gradient made by `Init` from at least two stops with strictly increasing offsets and
+    16-bit channels, `At` returns at every pixel the specification's colour `colorAt`: the spread function
+    applied to the raw offset of the pixel centre, then the piece-wise linear interpolation of the stops
+    (the integer part of the exact value, per channel), or transparent black. -/
+theorem at_spec (shape spread : UInt8) (m : Aff3 ℚ) (s0 s1 : Stop ℚ) (rest : List (Stop ℚ))
+    (hinc : increasing (specStops (s0 :: s1 :: rest))) (hok : ∀ s ∈ s0 :: s1 :: rest, chanOK s.color)
+    (x y : Int) :
+    toCol ((Gradient.init shape spread m (s0 :: s1 :: rest)).1.at x y) =
+      colorAt (Spread.ofCode spread) (specStops (s0 :: s1 :: rest))
+        (rawOffset (Gradient.init shape spread m (s0 :: s1 :: rest)).1 x y) :=
+  GradQ.at_spec shape spread m s0 s1 rest hinc hok x y
+-- non-vacuity: two stops, transparent at 0 and opaque white (0xffff) at 1
+example : increasing (specStops [(⟨0, ⟨0, 0, 0, 0⟩⟩ : Stop ℚ), ⟨1, ⟨0xffff, 0xffff, 0xffff, 0xffff⟩⟩]) ∧
+    ∀ s ∈ [(⟨0, ⟨0, 0, 0, 0⟩⟩ : Stop ℚ), ⟨1, ⟨0xffff, 0xffff, 0xffff, 0xffff⟩⟩], chanOK s.color := by
+  refine ⟨⟨by norm_num, trivial⟩, ?_⟩
+  intro s hs
+  simp only [List.mem_cons, List.mem_nil_iff, or_false] at hs
+  rcases hs with rfl | rfl <;> simp [chanOK]
+
+/-- Clause "at a stop's offset the colour is that stop's colour" (any stop, first, interior or last). -/
+theorem at_stop (shape spread : UInt8) (m : Aff3 ℚ) (s0 s1 : Stop ℚ) (rest : List (Stop ℚ))
+    (hinc : increasing (specStops (s0 :: s1 :: rest))) (hok : ∀ s ∈ s0 :: s1 :: rest, chanOK s.color)
+    (x y : Int) (i : Nat) (hi : i < (s0 :: s1 :: rest).length)
+    (hso : spreadOffset (Spread.ofCode spread)
+      (rawOffset (Gradient.init shape spread m (s0 :: s1 :: rest)).1 x y) = some ((s0 :: s1 :: rest)[i].offset)) :
+    (Gradient.init shape spread m (s0 :: s1 :: rest)).1.at x y = (s0 :: s1 :: rest)[i].color :=
+  GradQ.at_stop shape spread m s0 s1 rest hinc hok x y i hi hso
+
+/-- Clause "before the first or after the last stop it is the first or last colour". -/
+theorem before_first_after_last (shape spread : UInt8) (m : Aff3 ℚ) (s0 s1 : Stop ℚ) (rest : List (Stop ℚ))
+    (hinc : increasing (specStops (s0 :: s1 :: rest))) (hok : ∀ s ∈ s0 :: s1 :: rest, chanOK s.color)
+    (x y : Int) (o : ℚ)
+    (hso : spreadOffset (Spread.ofCode spread)
+      (rawOffset (Gradient.init shape spread m (s0 :: s1 :: rest)).1 x y) = some o) :
+    (o < s0.offset → (Gradient.init shape spread m (s0 :: s1 :: rest)).1.at x y = s0.color) ∧
+    (((s0 :: s1 :: rest).getLast (by simp)).offset < o →
+      (Gradient.init shape spread m (s0 :: s1 :: rest)).1.at x y = ((s0 :: s1 :: rest).getLast (by simp)).color) :=
+  GradQ.before_first_after_last shape spread m s0 s1 rest hinc hok x y o hso
+
+/-- Clause "equal to the piece-wise linear interpolation (in premultiplied space) of its stops": inside a
+    range (`oᵢ < o ≤ oᵢ₊₁`) every channel is the integer part of `(1−t)·c₀ + t·c₁`, `t = (o − oᵢ)/(oᵢ₊₁ − oᵢ)`
+    (`Spec.Grad.lerp`). -/
+theorem at_interp (shape spread : UInt8) (m : Aff3 ℚ) (s0 s1 : Stop ℚ) (rest : List (Stop ℚ))
+    (hinc : increasing (specStops (s0 :: s1 :: rest))) (hok : ∀ s ∈ s0 :: s1 :: rest, chanOK s.color)
+    (x y : Int) (o : ℚ)
+    (hso : spreadOffset (Spread.ofCode spread)
+      (rawOffset (Gradient.init shape spread m (s0 :: s1 :: rest)).1 x y) = some o)
+    (i : Nat) (hi : i + 1 < (s0 :: s1 :: rest).length)
+    (h0 : (s0 :: s1 :: rest)[i].offset < o) (h1 : o ≤ (s0 :: s1 :: rest)[i + 1].offset) :
+    let a := (s0 :: s1 :: rest)[i]
+    let b := (s0 :: s1 :: rest)[i + 1]
+    let c := (Gradient.init shape spread m (s0 :: s1 :: rest)).1.at x y
+    c.r = (lerp a.offset b.offset a.color.r b.color.r o).floor.toNat ∧
+    c.g = (lerp a.offset b.offset a.color.g b.color.g o).floor.toNat ∧
+    c.b = (lerp a.offset b.offset a.color.b b.color.b o).floor.toNat ∧
+    c.a = (lerp a.offset b.offset a.color.a b.color.a o).floor.toNat :=
+  GradQ.at_interp shape spread m s0 s1 rest hinc hok x y o hso i hi h0 h1
+
+/-- Clause "returns a valid premultiplied colour": premultiplied stops give `R, G, B ≤ A` at every pixel
+    (interpolation and truncation are monotone). -/
+theorem premul_valid (shape spread : UInt8) (m : Aff3 ℚ) (s0 s1 : Stop ℚ) (rest : List (Stop ℚ))
+    (hinc : increasing (specStops (s0 :: s1 :: rest))) (hok : ∀ s ∈ s0 :: s1 :: rest, chanOK s.color)
+    (hp : ∀ s ∈ s0 :: s1 :: rest, s.color.r ≤ s.color.a ∧ s.color.g ≤ s.color.a ∧ s.color.b ≤ s.color.a)
+    (x y : Int) :
+    let c := (Gradient.init shape spread m (s0 :: s1 :: rest)).1.at x y
+    c.r ≤ c.a ∧ c.g ≤ c.a ∧ c.b ≤ c.a :=
+  GradQ.premul_valid shape spread m s0 s1 rest hinc hok hp x y
+
+/-! ## the gradients the renderer builds -/
+
+/-- Clause "the offset obtained by mapping the pixel centre through the viewBox-to-gradient matrix composed
+    with the pixel-to-viewBox map": the matrix `initGradient` builds (`pixMatrix`), applied to pixel
+    coordinates, is the NREG matrix `[a b c; d e f]` applied to `(px/scaleX − biasX, py/scaleY − biasY)`,
+    the inverse of the viewBox-to-pixel map (`unabsX`, `unabsY`; see `Ivg.Props.C05.unabs_abs`). -/
+theorem pix2grad_compose (z : Renderer ℚ ℚ) (nBase : UInt8) (px py : ℚ) :
+    let m := pixMatrix z nBase
+    m.a * px + m.b * py + m.c =
+      z.nReg.get6 (nBase - 6) * z.unabsX px + z.nReg.get6 (nBase - 5) * z.unabsY py + z.nReg.get6 (nBase - 4) ∧
+    m.d * px + m.e * py + m.f =
+      z.nReg.get6 (nBase - 3) * z.unabsX px + z.nReg.get6 (nBase - 2) * z.unabsY py + z.nReg.get6 (nBase - 1) :=
+  GradQ.pix2grad_compose z nBase px py
+
+/-- The whole property for a gradient the renderer accepts (`initGradient … = some g`): its stops are the
+    register contents CREG/NREG[base+k] (at least two, strictly increasing), its shape, spread and matrix are
+    the decoded ones resp. `pixMatrix`, and at every pixel the colour is the specification's `colorAt` and is
+    a valid premultiplied colour. -/
+theorem gradient_at_spec (z : Renderer ℚ ℚ) (rgba : RGBA) (g : Gradient ℚ) (h : z.initGradient rgba = some g) :
+    ∃ stops : List (Stop ℚ),
+      stops.length = (decodeGradient rgba).nStops.toNat ∧ 2 ≤ stops.length ∧
+      (∀ k (hk : k < stops.length), stops[k] =
+        ⟨z.nReg.get6 ((decodeGradient rgba).nBase + (0 + UInt8.ofNat k)),
+         rgba64Of (z.cReg.get6 ((decodeGradient rgba).cBase + (0 + UInt8.ofNat k)))⟩) ∧
+      increasing (specStops stops) ∧
+      g.shape = (decodeGradient rgba).shape ∧ g.spread = (decodeGradient rgba).spread ∧
+      g.pix2Grad = pixMatrix z (decodeGradient rgba).nBase ∧
+      ∀ x y : Int,
+        toCol (g.at x y) = colorAt (Spread.ofCode (decodeGradient rgba).spread) (specStops stops) (rawOffset g x y) ∧
+        ((g.at x y).r ≤ (g.at x y).a ∧ (g.at x y).g ≤ (g.at x y).a ∧ (g.at x y).b ≤ (g.at x y).a) :=
+  GradQ.gradient_at_spec z rgba g h
+
+/-- what the raw offset is (linear: x coordinate; radial: `sqrt` of the squared distance from the origin,
+    `sqrt` being the instance's parameter) -/
+theorem rawOffset_eq (g : Gradient ℚ) (x y : Int) :
+    rawOffset g x y =
+      (let px : ℚ := (x : ℚ) + 1 / 2
+       let py : ℚ := (y : ℚ) + 1 / 2
+       let m := g.pix2Grad
+       if g.shape = 0 then m.a * px + m.b * py + m.c
+       else SqrtQ.sq ((m.a * px + m.b * py + m.c) * (m.a * px + m.b * py + m.c) +
+                      (m.d * px + m.e * py + m.f) * (m.d * px + m.e * py + m.f))) := rfl
+
+/-!
+## Not proved in this file
+
+* Rounding: everything is about the `ℚ` instance.  At float64 the interpolation `s*c0 + t*c1` is rounded
+  before truncation, `x − floor x` and the matrix products are rounded; no error bound is proved.
+* The radial offset is `Wide.sqrt (gx² + gy²)` with `sqrt` an uninterpreted function on `ℚ`: "distance from
+  the origin" holds to the extent that this function is the square root.
+* `Spec.Grad.sample` breaks ties at a stop towards the range ENDING there (as `findRange` does); since both
+  neighbouring ranges give the stop's colour there (`at_stop`), this is not observable.
+* Non-vacuity of `gradient_at_spec` (a concrete register state accepted by `initGradient`) is exercised by
+  the differential suite, not by an `example` here.
+-/
+
 end Ivg.Props.C15
-#obligations C15 [Ivg.Gen.Tie.drawOps_tie, Ivg.Gen.Tie.magic_tie, Ivg.Gen.Tie.errorStrings_tie]
+
+#obligations C15 [
+  Ivg.Props.C15.clamp_spec, Ivg.Props.C15.clamp_inside, Ivg.Props.C15.clamp_pad, Ivg.Props.C15.clamp_repeat,
+  Ivg.Props.C15.clamp_reflect, Ivg.Props.C15.tri_of_floor, Ivg.Props.C15.clamp_none,
+  Ivg.Props.C15.at_none_outside, Ivg.Props.C15.at_spec, Ivg.Props.C15.at_stop,
+  Ivg.Props.C15.before_first_after_last, Ivg.Props.C15.at_interp, Ivg.Props.C15.premul_valid,
+  Ivg.Props.C15.pix2grad_compose, Ivg.Props.C15.gradient_at_spec, Ivg.Props.C15.rawOffset_eq,
+  Ivg.Gen.Tie.drawOps_tie, Ivg.Gen.Tie.magic_tie, Ivg.Gen.Tie.renderer_fields_tie,
+  Ivg.Gen.Tie.gradient_fields_tie]
